@@ -119,7 +119,8 @@ def check(run: Run) -> None:
         R.k1(run, "C13.c", fa, roles, spec2, what="InputDataCursor::last_modified_time")
 
         fa = R.fn(run, BASE, "TSInputView::delta_value")
-        roles = [Role("DV", "bool", r"data_view\(\)\.valid\(\)"), Role("TP", "bool", r"is_target_position\(\)"),
+        roles = [Role("DV", "bool", r"data_view\(\)\.valid\(\)"), Role("TP", "bool", r"is_target_position\(\)", required=False),
+                 Role("ROOT", "bool", r"data_\.is_target_root\(\)", required=False), Role("NOW", "t", r"evaluation_time_", required=False),
                  Role("LNULL", "bool", r"data_\.link_storage\(\)==nullptr|nullptr==data_\.link_storage\(\)"),
                  Role("LT", "t", r"data_\.link_storage\(\)->tracking\.last_modified_time"), Role("TGT", "t", r"data_view\(\)\.last_modified_time\(\)"),
                  Role("HASD", "bool", r"data_view\(\)\.delta_value\(evaluation_time_\)\.has_value\(\)"),
@@ -129,7 +130,8 @@ def check(run: Run) -> None:
         def spec3(v):
             if not v.b("DV"):
                 return Expect(throws=True)
-            if v.b("TP") and (not v.b("LNULL")) and v.gt("LT", "TGT"):
+            # sampled rebind: the delta IS the current value - at the link root, in the cycle the link recorded the rebind, while the target itself is older
+            if v.b("ROOT") and (not v.b("LNULL")) and v.eq("LT", "NOW") and v.gt("LT", "TGT"):
                 return Expect(ret=r"data_view\(\)\.value\(\)")
             if v.b("HASD"):
                 return Expect(ret=r"data_view\(\)\.delta_value\(evaluation_time_\)")
